@@ -42,6 +42,9 @@ GETTERS = {
 }
 
 
+CURRENT = {"world": None}
+
+
 class World:
     """The real classes of one scenario."""
 
@@ -51,10 +54,14 @@ class World:
         self.counts = {}
         self.ns = {"FN": FN, "GETTERS": GETTERS, "COUNTS": self.counts, "__name__": f"scn_{name}"}
         exec(S.source(self.scn), self.ns)
+        FN["shared"] = lambda x: CURRENT["world"].shared
+        FN["plookup"] = lambda x: CURRENT["world"].shared if isinstance(x, str) and x == "s" else x
         self.root = self.ns[self.scn["root"]]
         self.classes = {n: self.ns[n] for n in self.scn["classes"]}
         for c in self.classes.values():            # bootstrap now: class-level state is observed by some checks
             getattr(c, "__spec_class__", None)
+        # a pre-existing object that some callbacks of the pool hand back (a "registry entry")
+        self.shared = self.classes["Child"](v=1, ws=[1]) if "Child" in self.classes else None
         self.by_type = {c: n for n, c in self.classes.items()}
         self.dnc_attrs = {n: {a["name"] for a in c["attrs"] if a["dnc"]} for n, c in self.scn["classes"].items()}
         self.props = {n: [p["name"] for p in c["props"]] for n, c in self.scn["classes"].items()}
@@ -284,6 +291,11 @@ def execute(world, o, act, src="table"):
     peer_pre = world.alpha(peer)
     dflt_pre, dflt_tok = world.class_defaults(reg)
     args = []
+    CURRENT["world"] = world
+    if world.shared is not None:
+        world.shared = world.classes["Child"](v=1, ws=[1])
+    if world.shared is not None:
+        args.append([world.shared, world.alpha(world.shared)])       # must come out of every call unmodified
     res, result = "ok", None
     try:
         result = call(world, recv, act, args)
